@@ -68,7 +68,8 @@ theorem start_runs_all_uncancelled (cfg : Cfg) (s s' : St) (hq : QAll noStop s) 
     skip := by intro st x q' sp ⟨h1, h2⟩ a b hd c d; exact ⟨h1, (countInv_iter cfg none noStop).skip st x q' sp h2 a b hd c d⟩
     begin := by intro st x q' sp ⟨h1, h2⟩ a b hd c d; exact ⟨h1, (countInv_iter cfg none noStop).begin st x q' sp h2 a b hd c d⟩
     enq := by intro x st via m t cid child a b ⟨h1, h2⟩; exact ⟨h1, (countInv_iter cfg none noStop).enq x st via m t cid child a b h2⟩
-    cancel := by intro x st id a ⟨h1, h2⟩; exact ⟨h1, (countInv_iter cfg none noStop).cancel x st id a h2⟩
+    cancel := by intro x st id ⟨h1, h2⟩; exact ⟨h1, (countInv_iter cfg none noStop).cancel x st id h2⟩
+    link := by intro x s l h; exact h
     stop := by intro x st hs _; exact absurd hs (by simp [noStop])
     sleep := by intro x st t _ _ h; exact h
     handled := by intro x st e _ _ h; exact h
@@ -129,7 +130,8 @@ theorem restart_after_drain (cfg : Cfg) (s s1 s2 : St) (more : List (Nat × Int 
       skip := by intro st x q' sp h _ _ _ _ _; exact h
       begin := by intro st x q' sp h _ _ _ _ _; exact h
       enq := by intro x st via m t cid child _ _ h; simp only [St.enqueue]; omega
-      cancel := by intro x st id _ h; exact h
+      cancel := by intro x st id h; exact h
+      link := by intro x s l h; exact h
       stop := by intro x st _ h; exact h
       sleep := by intro x st t _ _ h; exact h
       handled := by intro x st e _ _ h; exact h
